@@ -33,6 +33,7 @@ def floors(m, tier):
             "match() evaluations": (c.get("match_calls", 0), u * 5),
             "match() True": (c.get("match_true", 0), u),
             "match() on forced-type Sids": (c.get("match_forced_type", 0), 20),
+            "match() where the search's query overwrites its own symbol": (c.get("match_query_overwrites_symbol", 0), u),
             "typed non-search lookups": (c.get("typed_nonsearch", 0), u),
             "alias in last segment of a typed non-search Sid": (c.get("typed_nonsearch_alias", 0), 5)}
 
@@ -247,6 +248,18 @@ def worker(args):
                         # the same string as a Sid of another type that accepts it: found by s in [its string] all the same
                         check_match(rec, model, Sid, xs, s, forced_type=ts[-1].name)
                         check_match(rec, model, Sid, xs, xs, forced_type=ts[-1].name)
+                if k % 5 == 0 and full:
+                    # the search's own query overwrites its symbol with the value the Sid has there: Sid(search) == the Sid,
+                    # yet match is still "found by this search in [its string]"
+                    base = rng.choice(full)
+                    bt = model.natural(base)
+                    segs = base.split("/")
+                    if bt is not None and len(segs) > 1:
+                        i = rng.randrange(1, len(segs))
+                        sym = rng.choice(["*", "**"]) if i == len(segs) - 1 else "*"
+                        s_q = "/".join(segs[:i] + [sym] + segs[i + 1:] if sym == "*" else segs[:i] + ["**"]) + "?%s=%s" % (bt.keys[i], segs[i])
+                        rec.count("match_query_overwrites_symbol")
+                        check_match(rec, model, Sid, base, s_q)
                 if u == 0 and k == 0:
                     rec.sample({"variant": vname, "list_size": len(L), "search": s, "found": [str(g) for g in (got or [])][:5]})
     return rec.result()
